@@ -151,6 +151,10 @@ def parse_phonon(text: str) -> dict:
 # =========================================================================== 3. static table
 
 LATTICE_HEADER = "lattice_a lattice_b lattice_c"
+# The block is introduced by ONE non-blank line; nothing says how it is spelled (the shipped files differ in
+# blanks around it already).  Spellings a user may write; none is numeric (a numeric line would be a table row).
+LATTICE_HEADERS = [None,                                  # the spelling of the chosen shipped layout
+                   "LATTICE_A LATTICE_B LATTICE_C", "a b c", "# lattice parameters (bohr)", "Lattice parameters:"]
 
 # the three presentations found in the shipped files
 LAYOUTS = {
@@ -167,7 +171,7 @@ LAYOUTS = {
 
 
 def write_static(title, vref, nv, cellmass, colnames, rows, lattice=None, layout="plain",
-                 final_eol=True) -> str:
+                 final_eol=True, lattice_header=None) -> str:
     """Text of a static table.  All numbers are passed as *strings* (the tabulated text), so that the
     expected parse is float(text) of exactly what is on the page.
     colnames: ["V", "c11", ...]; rows: nv lists of len(colnames) strings; lattice: None or nv lists of 3."""
@@ -180,7 +184,7 @@ def write_static(title, vref, nv, cellmass, colnames, rows, lattice=None, layout
     if lattice is not None:
         if len(lattice) != int(nv) or any(len(r) != 3 for r in lattice):
             raise ValueError("lattice block does not match nv")
-        out.append(L["lat_header"])
+        out.append(L["lat_header"] if lattice_header is None else lattice_header)
         for r in lattice:
             out.append(L["lead"] + L["sep"].join(r) + L["lat_trail"])
     text = L["eol"].join(out)
